@@ -296,7 +296,7 @@ def run(ctx):
             raise core.CheckFailure("goal text does not lower to the generated terms: %s" % txt)
         ans = v[5]
         same = erase(a) == erase(b)
-        ctx.count("solver:" + sv, txt, nontrivial=L.tsize(a) > 2)
+        ctx.count("solver:" + sv, sv + "|" + txt, nontrivial=L.tsize(a) > 2)
         if isinstance(ans, tuple) and ans[0] == "Unique":
             stats["unique"] += 1
             if not same:
@@ -320,7 +320,7 @@ def run(ctx):
             stats["shape_mismatch_pairs"] += 1
         if any(L.hname(x) == "HLInfer" for x in lifetimes_of(a) + lifetimes_of(b)):
             stats["with_unknowns"] += 1
-        ctx.count("relate", txt, nontrivial=L.tsize(a) > 2)
+        ctx.count("relate", "relate|" + txt, nontrivial=L.tsize(a) > 2)
         if sr.kind == "Ok":
             stats["relate_ok"] += 1
             if not same:
